@@ -26,7 +26,7 @@ REP k_neg(REP); REP k_pos(REP); REP k_incdec(REP, unsigned, REP*); void k_zmm(RE
 REP k_cadd(REP, REP); REP k_csub(REP, REP); REP k_cmul(REP, REP); REP k_cdiv(REP, REP); REP k_cmod(REP, REP); REP k_cmodd(REP, REP);
 REP k_tp_add(REP, REP); REP k_tp_sub(REP, REP); REP k_tp_incdec(REP, unsigned, REP*); void k_tp_mm(REP*, REP*);
 REP k_tp_cast(REP); REP k_tp_floor(REP); REP k_tp_ceil(REP); REP k_tp_round(REP); unsigned k_tp_cmp(REP, REP);
-MREP k_madd(REP, REP2); MREP k_msub(REP, REP2); MREP k_mcommon_a(REP); MREP k_mcommon_b(REP2); unsigned k_mcmp(REP, REP2); REP2 k_mcast(REP);
+REP k_conv(REP); MREP k_madd(REP, REP2); MREP k_msub(REP, REP2); MREP k_mcommon_a(REP); MREP k_mcommon_b(REP2); unsigned k_mcmp(REP, REP2); REP2 k_mcast(REP);
 }
 template <class T> static T ndT()
 {
@@ -214,7 +214,7 @@ Q q_round_std()
 // reachability of the interesting branches (only for pairs with CD > 1): adjustment below zero, ties on odd and even
 Q q_reach()
 {
-    REP c = in<REP>(D_ROUND); lim(c, 14);
+    REP c = in<REP>(D_ROUND); lim(c, 21);
     REP t = k_cast(c), f = k_floor(c), ce = k_ceil(c), r = k_round(c);
     if (c < 0 && f != t) vf_witness("floor adjusts a negative inexact count");
     if (c > 0 && ce != t) vf_witness("ceil adjusts a positive inexact count");
@@ -399,14 +399,23 @@ Q q_fabs()
     vf_assert(same(k_abs(c), std::chrono::abs(SFrom{c}).count()), "abs == std::chrono (floating Rep)");
     vf_assert(same(k_neg(c), (-SFrom{c}).count()) && same(k_pos(c), c), "unary minus/plus (floating Rep)");
 }
+// oracles in noinline functions with the kernels' signatures: same canonical operand order on both sides
+static __attribute__((noinline)) REP o_add(REP a, REP b) { return (SFrom{a} + STo{b}).count(); }
+static __attribute__((noinline)) REP o_sub(REP a, REP b) { return (SFrom{a} - STo{b}).count(); }
+static __attribute__((noinline)) REP o_conv(REP c) { return STo{SFrom{c}}.count(); }
 Q q_faddsub()
 {
     REP a = nd(), b = nd();
-    // IEEE addition is commutative; the two operand orders are the same value but not the same term for the solver
-    REP s = k_add(a, b);
-    vf_assert(same(s, (SFrom{a} + STo{b}).count()) || same(s, (STo{b} + SFrom{a}).count()), "a + b == std::chrono (floating Rep)");
-    vf_assert(same(k_sub(a, b), (SFrom{a} - STo{b}).count()), "a - b == std::chrono (floating Rep)");
+    vf_assert(same(k_add(a, b), o_add(a, b)), "a + b == std::chrono (floating Rep)");
+    vf_assert(same(k_sub(a, b), o_sub(a, b)), "a - b == std::chrono (floating Rep)");
     vf_assert(same(k_to_common(a), SCT{SFrom{a}}.count()) && same(k_to_common_b(b), SCT{STo{b}}.count()), "conversion to the common type == std::chrono (floating Rep)");
+}
+// implicit conversion duration<Rep, P1> -> duration<Rep, P2> (allowed for every pair of periods when Rep is floating point)
+Q q_fconv()
+{
+    REP c = nd();
+    VF_KNOWN(C12_conv_ctor_ignores_den, CD != 1 && c != 0 && c - c == 0);
+    vf_assert(same(k_conv(c), o_conv(c)), "converting constructor == std::chrono (floating Rep)");
 }
 Q q_fcmp()
 {
@@ -440,6 +449,14 @@ Q q_ftp_casts()
 
 // ---------------------------------------------------------------------------------------------------- mixed representations
 // duration<REP, From::period> op duration<REP2, To::period>: the common type has Rep common_type<REP, REP2> (MREP).
+// std::chrono oracles live in noinline functions with the kernels' signatures so that both sides reach the solver in the
+// same canonical operand order (floating-point + is commutative for the compiler but not for a bit-level solver).
+#define ORACLE static __attribute__((noinline))
+ORACLE MREP o_madd(REP a, REP2 b) { return (SFrom{a} + STo2{b}).count(); }
+ORACLE MREP o_msub(REP a, REP2 b) { return (SFrom{a} - STo2{b}).count(); }
+ORACLE MREP o_mcommon_a(REP a) { return SCT2{SFrom{a}}.count(); }
+ORACLE MREP o_mcommon_b(REP2 b) { return SCT2{STo2{b}}.count(); }
+ORACLE unsigned o_mcmp(REP a, REP2 b) { return six(SFrom{a}, STo2{b}); }
 #if !REPF && !REP2F
 static constexpr i128 MMAX = tmax<MREP>();
 constexpr bool mfits(i128 v) { return v >= -MMAX - 1 && v <= MMAX; }
@@ -447,34 +464,62 @@ constexpr bool p_ma(i128 a) { return mfits(a * FF); }
 constexpr bool p_mb(i128 b) { return mfits(b * TF); }
 static constexpr Dom D_MA = mkdom<REP>(p_ma), D_MB = mkdom<REP2>(p_mb);
 static_assert(domok<REP>(D_MA, p_ma) && domok<REP2>(D_MB, p_mb));
+typedef std::conditional_t<sizeof(MREP) <= 4, long long, i128> MW;
 Q q_mixed()
 {
     REP a = in<REP>(D_MA); REP2 b = in<REP2>(D_MB);
-    i128 A = i128(a) * FF, B = i128(b) * TF;
+    MW A = MW(a) * MW(FF), B = MW(b) * MW(TF);   // exact: both fit MREP on this domain
     vf_assume(mfits(A + B) && mfits(A - B));
-    MREP s = k_madd(a, b), d = k_msub(a, b);
-    vf_assert(i128(s) == A + B && i128(d) == A - B, "mixed Rep: a + b, a - b exact in the common type");
-    vf_assert(s == (SFrom{a} + STo2{b}).count() && d == (SFrom{a} - STo2{b}).count(), "mixed Rep: + - == std::chrono");
-    vf_assert(i128(k_mcommon_a(a)) == A && i128(k_mcommon_b(b)) == B, "mixed Rep: conversion to the common type is exact");
+    // + and - are the std::chrono results; the operands' common-type values are the exact ones (so the sums are exact)
+    vf_assert(k_madd(a, b) == o_madd(a, b) && k_msub(a, b) == o_msub(a, b), "mixed Rep: + - == std::chrono");
+    vf_assert(k_mcommon_a(a) == MREP(A) && k_mcommon_b(b) == MREP(B), "mixed Rep: conversion to the common type is exact");
     unsigned e = unsigned(A == B) | unsigned(A != B) << 1 | unsigned(A < B) << 2 | unsigned(A <= B) << 3 | unsigned(A > B) << 4 | unsigned(A >= B) << 5;
     vf_assert(k_mcmp(a, b) == e, "mixed Rep: comparisons are those of the exact rationals");
 }
 #else
+// floating common Rep. An integer operand is restricted to counts whose exact common-type value count * factor is below
+// 2^24 / 2^53 in magnitude (every such value is representable and std::chrono yields it) and |count| <= 2^31. Only the confirm query of the
+// known finding C12_conv_ctor_int_overflow uses the wider domain "at most 24 / 53 significant bits".
+static constexpr int MANT = sizeof(MREP) == 4 ? 24 : 53;
+#ifndef ILIM
+#define ILIM 31  // log2 bound on an integer operand of an integer/floating mix
+#endif
+template <class T> static bool exact_in_mrep(T c, i128 f, bool sigbits)
+{
+    if constexpr (std::is_floating_point_v<T>) return true;
+    else {
+        i128 A = i128(c) * f; i128 ab = A < 0 ? -A : A; i128 low = ab & -ab;
+        return sigbits ? ((ab >> MANT) < low || ab == 0) : (ab < (i128(1) << MANT) && i128(c) < (i128(1) << ILIM) && i128(c) >= -(i128(1) << ILIM));
+    }
+}
+template <class T> static bool overflows64(T c, i128 f)
+{
+    if constexpr (std::is_floating_point_v<T>) return false;
+    else { i128 A = i128(c) * f; return A > i128(9223372036854775807LL) || A < -i128(9223372036854775807LL) - 1; }
+}
+// float -> double with a factor other than 1: the product count * factor is evaluated in float. Region: every finite
+// non-zero count (inside it the results agree only where the float product happens to be exact).
+template <class T> static bool narrow_mul(T c, i128 f)
+{
+    if constexpr (std::is_same_v<T, float> && std::is_same_v<MREP, double>) return f != 1 && c != 0 && c - c == 0;
+    else return false;
+}
 Q q_mixed()
 {
     REP a = nd(); REP2 b = ndT<REP2>();
-    // inputs of an integer Rep are kept where their conversion to the floating common Rep is exact in both libraries
-    if constexpr (!REPF) lim(a, 24);
-    if constexpr (!REP2F) lim(b, 24);
-    vf_assert(same(k_mcommon_a(a), SCT2{SFrom{a}}.count()), "mixed Rep: conversion of the first operand to the common type == std::chrono");
-    vf_assert(same(k_mcommon_b(b), SCT2{STo2{b}}.count()), "mixed Rep: conversion of the second operand to the common type == std::chrono");
-    MREP s = k_madd(a, b);
-    vf_assert((same(s, (SFrom{a} + STo2{b}).count()) || same(s, (STo2{b} + SFrom{a}).count())) && same(k_msub(a, b), (SFrom{a} - STo2{b}).count()), "mixed Rep: + - == std::chrono");
-    vf_assert(k_mcmp(a, b) == six(SFrom{a}, STo2{b}), "mixed Rep: comparisons == std::chrono");
+    bool const wide_dom = VF_KF_C12_conv_ctor_int_overflow == 2;
+    vf_assume(exact_in_mrep(a, FF, wide_dom) && exact_in_mrep(b, TF, wide_dom));
+    VF_KNOWN(C12_conv_ctor_int_overflow, overflows64(a, FF) || overflows64(b, TF));
+    VF_KNOWN(C12_conv_ctor_narrow_float, narrow_mul(a, FF) || narrow_mul(b, TF));
+    vf_assert(same(k_mcommon_a(a), o_mcommon_a(a)), "mixed Rep: conversion of the first operand to the common type == std::chrono");
+    vf_assert(same(k_mcommon_b(b), o_mcommon_b(b)), "mixed Rep: conversion of the second operand to the common type == std::chrono");
+    vf_assert(same(k_madd(a, b), o_madd(a, b)) && same(k_msub(a, b), o_msub(a, b)), "mixed Rep: + - == std::chrono");
+    if (a == a && b == b) vf_assert(k_mcmp(a, b) == o_mcmp(a, b), "mixed Rep: comparisons == std::chrono");
 }
 #endif
+ORACLE REP2 o_mcast(REP c) { return std::chrono::duration_cast<STo2>(SFrom{c}).count(); }
 Q q_mcast()
 {
     REP c = nd();  // only used with a floating To representation (every value converts without UB)
-    vf_assert(same(k_mcast(c), std::chrono::duration_cast<STo2>(SFrom{c}).count()), "duration_cast to another Rep == std::chrono");
+    vf_assert(same(k_mcast(c), o_mcast(c)), "duration_cast to another Rep == std::chrono");
 }
